@@ -180,6 +180,8 @@ type sworld struct {
 	dcOf   map[uint64]string // model of the dc-location keys: member id -> dc
 	hist   map[string]int32  // every suffix ever seen in etcd, per dc
 	incon  bool
+	// TSOUpdatePhysicalInterval of the members (also the pause between retries after a logical overflow)
+	updInterval time.Duration
 }
 
 func dcName(i int) string    { return fmt.Sprintf("dc-%d", i) }
@@ -192,6 +194,9 @@ func (w *sworld) newNode(i int) *snode {
 	cfg.EnableLocalTSO = true
 	cfg.TSOSaveInterval.Duration = 3 * time.Second
 	cfg.TSOUpdatePhysicalInterval.Duration = 50 * time.Millisecond
+	if w.updInterval > 0 {
+		cfg.TSOUpdatePhysicalInterval.Duration = w.updInterval
+	}
 	cfg.AdvertiseClientUrls = fmt.Sprintf("http://127.0.0.1:%d", 22000+i)
 	cfg.AdvertisePeerUrls = fmt.Sprintf("http://127.0.0.1:%d", 23000+i)
 	mb := member.NewMember(w.f.Etcd, w.sl[i].client, memberID(i))
@@ -595,6 +600,11 @@ func (w *sworld) checkOne(step int, n *snode) error {
 	return nil
 }
 
+// ignoreKnown is set by the finding probes: they run the excluded trigger class on purpose.
+var ignoreKnown bool
+
+func known(key string) bool { return !ignoreKnown && vkit.Known(key) }
+
 // keyStaleLeaderDup: a PD leader that lost leadership while its dc-location checker was between reading the
 // suffix map and writing the new suffix can persist a suffix the new leader has meanwhile given to another
 // dc-location, if the first dc-location is not in use at the moment the new leader looks.
@@ -604,22 +614,38 @@ const keyStaleLeaderDup = "C05/stale-leader-suffix-duplicate"
 // create-if-absent txn of the suffix; leadership moves to L; (variant LV: the member of DC is removed;)
 // dc-location DC2 joins and every other manager checks; then M continues.
 func (w *sworld) race(step int, op SOp, nm int, mayJoin func(string) bool, joined map[string]bool, info *vkit.Info) (bool, error) {
-	m, l := op.M%nm, op.L%nm
-	dcA, dcB := dcName(op.DC), dcName(op.DC2)
+	// operands are relative: M is whoever leads now, L another member, DC/DC2 the next dc names that are
+	// neither in use nor have a persisted suffix
+	if w.leader < 0 {
+		return false, nil
+	}
+	m := w.leader
+	l := (m + 1 + op.L%(nm-1)) % nm
 	xa, xb := extraID(op.X%nExtras), extraID((op.X+1)%nExtras)
 	suff, err := w.etcdSuffixes()
 	if err != nil {
 		return false, fmt.Errorf("op %d: %v", step, err)
 	}
-	_, aInUse := distinctDCs(w.dcOf)[dcA]
-	if w.leader != m || l == m || dcA == dcB || suff[dcA] != 0 || suff[dcB] != 0 || aInUse || !mayJoin(dcA) {
+	inUse := distinctDCs(w.dcOf)
+	fresh := func(from int, not string) string {
+		for i := 0; i < nDCNames; i++ {
+			dc := dcName((from + i) % nDCNames)
+			if _, used := inUse[dc]; !used && suff[dc] == 0 && dc != not {
+				return dc
+			}
+		}
+		return ""
+	}
+	dcA := fresh(op.DC, "")
+	dcB := fresh(op.DC2, dcA)
+	if dcA == "" || dcB == "" || !mayJoin(dcA) {
 		return false, nil
 	}
 	// moving xb to DC2 takes its present dc-location out of use; that matters if the stalled leader still owes it a suffix
 	oldB, bMember := w.dcOf[xb]
 	vacates := bMember && oldB != dcB && suff[oldB] == 0 && distinctDCs(w.dcOf)[oldB] == 1
 	skipB := false
-	if (op.LV || vacates) && vkit.Known(keyStaleLeaderDup) {
+	if (op.LV || vacates) && known(keyStaleLeaderDup) {
 		// known finding: the variants in which a dc-location the stalled leader is writing for goes out of use
 		// before the new leader looks (its member removed, or moved to DC2) are excluded; the race itself stays
 		op.LV, skipB = false, vacates
